@@ -72,9 +72,20 @@ def build_driver(ctx):
     env = dict(os.environ)
     env.update(GOENV)
     hdir = os.path.join(ctx.root, "harness")
+    repo = os.environ.get("VERIF_REPO", "/repo")
+    if repo != "/repo":
+        # development aid: measure a scratch worktree of ostafen/clover instead of /repo
+        src = os.path.join(ctx.work, "harness-src")
+        shutil.copytree(hdir, src)
+        with open(os.path.join(src, "go.mod")) as f:
+            gm = f.read().replace("=> /repo", "=> " + repo)
+        with open(os.path.join(src, "go.mod"), "w") as f:
+            f.write(gm)
+        hdir = src
+        ctx.harness_dir = src
     # go.sum must cover clover's dependencies
     try:
-        shutil.copyfile("/repo/go.sum", os.path.join(hdir, "go.sum"))
+        shutil.copyfile(os.path.join(repo, "go.sum"), os.path.join(hdir, "go.sum"))
     except OSError:
         pass
     r = subprocess.run(["go", "build", "-tags", "verif", "-o", out, "."], cwd=hdir, env=env,
@@ -567,11 +578,160 @@ def aux_known_match(ctx, line):
     return None
 
 
+LIN_CFG = "SPECIFICATION LinSpec\nCONSTRAINT HighWater\nPOSTCONDITION Accepted\nCHECK_DEADLOCK FALSE\n"
+
+
+def split_histories(path):
+    hs = []
+    with open(path) as f:
+        for line in f:
+            if not line.strip():
+                continue
+            if '"t":"reset"' in line:
+                hs.append([])
+            hs[-1].append(line)
+    return hs
+
+
+def stage_lin(ctx, st):
+    """C07: concurrent histories of the real code, linearizability decided by TLC (TraceLin)."""
+    n = st["n"][0] if ctx.tier == "quick" else st["n"][1]
+    out = os.path.join(ctx.work, "conc-%s.ndjson" % st["name"])
+    stats = os.path.join(ctx.work, "conc-%s.json" % st["name"])
+    args = ["conc", "-seed", str(ctx.seed + st.get("seed_off", 0)), "-n", str(n), "-out", out, "-stats", stats,
+            "-backends", st.get("backends", "rotate"), "-maxg", str(st.get("maxg", 4)), "-ops", str(st.get("ops", 3)), "-par", "4"]
+    msg = run_driver(ctx, args)
+    ctx.log(msg.strip().splitlines()[-1])
+    with open(stats) as f:
+        sj = json.load(f)
+    for k, v in sj.get("outcomes", {}).items():
+        ctx.outcomes[k] = ctx.outcomes.get(k, 0) + v
+    hs = split_histories(out)
+    ctx.traces += len(hs)
+    ctx.events += sum(len(h) for h in hs)
+    ctx.evaluations += sum(v for k, v in sj.get("outcomes", {}).items() if "/" in k)
+    if hs and len(ctx.samples) < 8:
+        for ln in hs[0][4:7]:
+            e = json.loads(ln)
+            e.pop("res", None)
+            ctx.samples.append(e)
+    chunk = st.get("chunk", 10)
+    groups = [hs[i:i + chunk] for i in range(0, len(hs), chunk)]
+    rejected = []
+
+    def work(gi, group):
+        out_local = []
+        group = list(group)
+        rounds = 0
+        while group:
+            rounds += 1
+            lines = [ln for h in group for ln in h]
+            p = os.path.join(ctx.work, "lin-%s-%d-%d.ndjson" % (st["name"], gi, rounds))
+            with open(p, "w") as f:
+                f.writelines(lines)
+            r = tlc(ctx, "TraceLin", LIN_CFG, "lin-%s-%d-%d" % (st["name"], gi, rounds), env={"TRACE_FILE": p},
+                    workers=1, heap="6g", timeout=st.get("timeout", 600), deque=True)
+            m = re.search(r'<<"HIGHWATER", (\d+), (\d+)>>', r["out"])
+            if not m or r["rc"] == 124:
+                out_local.append(("error", r, None))
+                break
+            hw, total = int(m.group(1)), int(m.group(2))
+            if hw == total + 1 and r["ok"]:
+                out_local.append(("ok", r, None))
+                break
+            # the history holding line hw could not be explained
+            acc = 0
+            for hi, h in enumerate(group):
+                if hw <= acc + len(h):
+                    out_local.append(("reject", r, {"history": h, "line": hw - acc}))
+                    group = group[:hi] + group[hi + 1:]
+                    break
+                acc += len(h)
+            else:
+                out_local.append(("error", r, None))
+                break
+            if rounds > 4:
+                break
+        return out_local
+
+    with cf.ThreadPoolExecutor(max_workers=8) as ex:
+        futs = [ex.submit(work, gi, g) for gi, g in enumerate(groups)]
+        for fu in futs:
+            for kind, r, info in fu.result():
+                ctx.states += r["distinct"]
+                ctx.transitions += r["generated"]
+                if kind == "reject":
+                    rejected.append(info)
+                elif kind == "error":
+                    raise Inconclusive("TLC could not decide a concurrent history:\n" + "\n".join(r["out"].splitlines()[-30:]))
+    ctx.stage_log.append({"stage": st["name"], "kind": "linearizability", "histories": len(hs), "rejections": len(rejected)})
+    for info in rejected:
+        if len(ctx.violations) >= MAX_REPORTS:
+            ctx.extra["further_rejections_not_reported"] = ctx.extra.get("further_rejections_not_reported", 0) + 1
+            continue
+        rdir = os.path.join(ctx.root, "replays", ctx.prop)
+        os.makedirs(rdir, exist_ok=True)
+        path = os.path.join(rdir, "%s-seed%d-%d.json" % (st["name"], ctx.seed, len(ctx.violations)))
+        stuck = json.loads(info["history"][min(info["line"], len(info["history"])) - 1])
+        with open(path, "w") as f:
+            json.dump({"property": ctx.prop, "replay_fn": "lin", "seed": ctx.seed, "stage": {k: v for k, v in st.items() if k != "fn"},
+                       "tier": ctx.tier, "note": "no linearization explains the history beyond this line",
+                       "stuck_at_line": info["line"], "stuck_event": stuck,
+                       "history": [json.loads(x) for x in info["history"]]}, f, indent=1)
+        ctx.violations.append({"replay": path, "invariant": "Linearizable", "event": {"op": stuck.get("op"), "t": stuck.get("t")}})
+        print("VIOLATION property=%s replay=%s" % (ctx.prop, path), flush=True)
+        stuck.pop("audit", None)
+        ctx.log("  not linearizable; the search cannot get past: %s" % json.dumps(stuck)[:500])
+
+
+def stage_race(ctx, st):
+    """C07, data-race clause: the same concurrent drivers under the Go race detector."""
+    n = st["n"][0] if ctx.tier == "quick" else st["n"][1]
+    env = dict(os.environ)
+    env.update(GOENV)
+    out = os.path.join(ctx.work, "driver-race")
+    hdir = getattr(ctx, "harness_dir", os.path.join(ctx.root, "harness"))
+    r = subprocess.run(["go", "build", "-race", "-tags", "verif", "-o", out, "."], cwd=hdir, env=env,
+                       stdout=subprocess.PIPE, stderr=subprocess.STDOUT, text=True)
+    if r.returncode != 0:
+        raise Inconclusive("race build failed: " + r.stdout[-2000:])
+    logp = os.path.join(ctx.work, "racelog")
+    env["GORACE"] = "halt_on_error=0 log_path=%s" % logp
+    r = subprocess.run([out, "conc", "-seed", str(ctx.seed + 77), "-n", str(n), "-maxg", str(st.get("maxg", 6)), "-ops", "4",
+                        "-out", os.path.join(ctx.work, "race.ndjson"), "-par", "4"], cwd=ctx.work, env=env,
+                       stdout=subprocess.PIPE, stderr=subprocess.STDOUT, text=True, timeout=1500)
+    if r.returncode not in (0, 66):
+        raise Inconclusive("race run failed: " + r.stdout[-2000:])
+    ctx.log("race: " + (r.stdout.strip().splitlines() or ["?"])[-1])
+    reports = []
+    for fn in os.listdir(ctx.work):
+        if fn.startswith("racelog"):
+            txt = open(os.path.join(ctx.work, fn), errors="replace").read()
+            for blk in txt.split("=================="):
+                if "DATA RACE" in blk:
+                    reports.append(blk)
+    clover = [b for b in reports if "github.com/ostafen/clover/v2" in b]
+    ctx.extra["race_detector"] = {"histories": n, "reports": len(reports), "reports_in_clover": len(clover)}
+    ctx.evaluations += n
+    ctx.stage_log.append({"stage": st["name"], "kind": "race detector", "histories": n, "reports": len(reports)})
+    if clover:
+        rdir = os.path.join(ctx.root, "replays", ctx.prop)
+        os.makedirs(rdir, exist_ok=True)
+        path = os.path.join(rdir, "race-seed%d.json" % ctx.seed)
+        with open(path, "w") as f:
+            json.dump({"property": ctx.prop, "replay_fn": "race", "seed": ctx.seed, "stage": {k: v for k, v in st.items() if k != "fn"},
+                       "tier": ctx.tier, "report": clover[0][:6000]}, f, indent=1)
+        ctx.violations.append({"replay": path, "invariant": "NoDataRace", "event": {"race": True}})
+        print("VIOLATION property=%s replay=%s" % (ctx.prop, path), flush=True)
+        ctx.log("  data race: " + " | ".join(l.strip() for l in clover[0].splitlines()[1:8]))
+
+
 def stage_custom(ctx, st):
     return st["fn"](ctx, st)
 
 
-STAGES = {"trace": stage_trace, "mc": stage_mc, "custom": stage_custom, "edges": stage_edges, "aux": stage_aux}
+STAGES = {"trace": stage_trace, "mc": stage_mc, "custom": stage_custom, "edges": stage_edges, "aux": stage_aux,
+          "lin": stage_lin, "race": stage_race}
 
 
 # ------------------------------------------------------------------ evidence
@@ -606,8 +766,9 @@ def write_evidence(ctx, plan, status):
         "wall_s": round(time.time() - ctx.t0, 1),
         "violations": len(ctx.violations),
     }
-    os.makedirs(os.path.join(ctx.root, "evidence"), exist_ok=True)
-    with open(os.path.join(ctx.root, "evidence", ctx.prop + ".json"), "w") as f:
+    evdir = os.environ.get("VERIF_EVIDENCE_DIR", os.path.join(ctx.root, "evidence"))
+    os.makedirs(evdir, exist_ok=True)
+    with open(os.path.join(evdir, ctx.prop + ".json"), "w") as f:
         json.dump(ev, f, indent=1)
 
 
@@ -654,7 +815,13 @@ def run_replay(root, path, PLANS):
     rc = 0
     try:
         build_driver(ctx)
-        if rep.get("replay_fn") == "aux":
+        if rep.get("replay_fn") in ("lin", "race"):
+            ctx.tier = rep.get("tier", "quick")
+            STAGES[rep["stage"]["kind"]](ctx, rep["stage"])
+            rc = 1 if ctx.violations else 0
+            if rc == 0:
+                print("replay conforms: property=%s" % prop)
+        elif rep.get("replay_fn") == "aux":
             ctx.tier = rep.get("tier", "quick")
             stage_aux(ctx, rep["stage"])
             rc = 1 if ctx.violations else 0
